@@ -227,6 +227,13 @@ func c13PodRequestConv(pod *corev1.Pod, name corev1.ResourceName, conv func(*big
 	if initMax.Cmp(total) > 0 {
 		total.Set(initMax)
 	}
+	// pod-level resources (spec.resources, cpu/memory): when the pod states its request as a whole,
+	// that is the pod's request (Kubernetes' definition), not the container aggregate
+	if pod.Spec.Resources != nil && (name == corev1.ResourceCPU || name == corev1.ResourceMemory) {
+		if _, ok := pod.Spec.Resources.Requests[name]; ok {
+			total = get(pod.Spec.Resources.Requests)
+		}
+	}
 	if pod.Spec.Overhead != nil {
 		total.Add(total, get(pod.Spec.Overhead))
 	}
@@ -356,9 +363,9 @@ var c13PrioMid = []int32{3500, 4500, 5500, 6500, 7500, 8500, 9500}
 var c13PrioFar = []int32{0, 1, -1, 100, 2000, 1000000000, 2000000000, 2000001000, -2147483648, 2147483647}
 
 var c13CPUPool = []string{"1m", "0.0005", "500u", "1", "1.5", "2", "3", "4", "500m", "0.5", "250m", "750m", "999m", "1000m", "1001m", "1500m",
-	"2000m", "100m", "0.1", "1.0005", "1e3", "0", "16", "0.9995", "2500u", "1"}
+	"2000m", "100m", "0.1", "1.0005", "1e3", "0", "16", "0.9995", "2500u", "1", "1n", "1e6", "9e15", "64", "999999u"}
 var c13MemPool = []string{"1Gi", "1G", "1e3", "1.5Gi", "0", "128Mi", "1", "1000", "1Ki", "1000m", "1500m", "0.5", "4Gi", "1e9", "512Mi", "1536Mi",
-	"9007199254740993", "1Ti", "100M"}
+	"9007199254740993", "1Ti", "100M", "8Ei", "1e19", "1n"}
 var c13TierCPUPool = []string{"1000", "500", "1500", "1", "0", "2000", "1k", "250"}
 
 func c13Q(s string) resource.Quantity { return resource.MustParse(s) }
@@ -413,6 +420,25 @@ func c13GenResources(r *kit.Rand, beStyle bool) corev1.ResourceRequirements {
 		}
 		if r.Bool() {
 			c13SetRes(r, &rr, tm, c13MemPool, r.Weighted(0, 30, 60, 10))
+		}
+	}
+	if r.Pct(7) { // resources the protocol does not talk about
+		if rr.Requests == nil {
+			rr.Requests = corev1.ResourceList{}
+		}
+		if rr.Limits == nil {
+			rr.Limits = corev1.ResourceList{}
+		}
+		switch r.Intn(3) {
+		case 0:
+			rr.Requests[corev1.ResourceEphemeralStorage] = c13Q("1Gi")
+			rr.Limits[corev1.ResourceEphemeralStorage] = c13Q("2Gi")
+		case 1:
+			rr.Requests["example.com/widget"] = c13Q("2")
+			rr.Limits["example.com/widget"] = c13Q("2")
+		case 2:
+			rr.Requests["hugepages-2Mi"] = c13Q("4Mi")
+			rr.Limits["hugepages-2Mi"] = c13Q("4Mi")
 		}
 	}
 	if len(rr.Requests) == 0 {
@@ -489,14 +515,17 @@ func c13GenPod(r *kit.Rand) (*corev1.Pod, c13PodInfo) {
 		}
 	}
 	if r.Pct(20) {
-		pod.Labels[c13SubKey] = kit.Pick(r, []string{"0", "5500", "9999", "7001"})
+		pod.Labels[c13SubKey] = kit.Pick(r, []string{"0", "5500", "9999", "7001", "abc", "", "-1"})
 	}
 	if r.Pct(30) {
 		pod.Labels["app"] = kit.Pick(r, []string{"a", "b"})
 	}
 	_, hasQoSLabel := pod.Labels[c13QoSKey]
 	beStylePod := (pod.Labels[c13QoSKey] == "BE" && r.Pct(60)) || (!hasQoSLabel && r.Pct(10))
-	nc := []int{0, 1, 1, 1, 1, 1, 2, 2, 2, 2, 3, 3}[r.Intn(12)]
+	nc := r.Weighted(8, 40, 28, 12, 5, 4, 2, 1) // 0-6 containers, rarely 12
+	if nc == 7 {
+		nc = 12
+	}
 	if r.Pct(97) && nc == 0 {
 		nc = 1
 	}
@@ -504,10 +533,10 @@ func c13GenPod(r *kit.Rand) (*corev1.Pod, c13PodInfo) {
 		pod.Spec.Containers = append(pod.Spec.Containers, corev1.Container{Name: fmt.Sprintf("c%d", i), Image: "img",
 			Resources: c13GenResources(r, beStylePod && r.Pct(85))})
 	}
-	ni := r.Weighted(62, 28, 10)
+	ni := r.Weighted(60, 25, 9, 3, 2, 1) // 0-5 init containers
 	for i := 0; i < ni; i++ {
 		ic := corev1.Container{Name: fmt.Sprintf("i%d", i), Image: "img", Resources: c13GenResources(r, beStylePod && r.Pct(85))}
-		if r.Pct(15) {
+		if r.Pct(20) {
 			p := corev1.ContainerRestartPolicyAlways
 			ic.RestartPolicy = &p
 		}
@@ -528,6 +557,20 @@ func c13GenPod(r *kit.Rand) (*corev1.Pod, c13PodInfo) {
 // c13SteerWholeCPU adds to one container request the complement that makes the pod's CPU request
 // a whole number (only a bias of the generator; the oracle recomputes from the final object).
 func c13SteerWholeCPU(pod *corev1.Pod) {
+	if pod.Spec.Resources != nil {
+		if q, ok := pod.Spec.Resources.Requests[corev1.ResourceCPU]; ok {
+			// the pod-level request may only grow (it has to cover the containers)
+			up := c13Ceil(c13Rat(q))
+			if up.Sign() == 0 {
+				up.SetInt64(1)
+			}
+			pod.Spec.Resources.Requests[corev1.ResourceCPU] = c13Q(up.String())
+			if _, ok := pod.Spec.Resources.Limits[corev1.ResourceCPU]; ok {
+				pod.Spec.Resources.Limits[corev1.ResourceCPU] = c13Q(up.String())
+			}
+			return
+		}
+	}
 	if len(pod.Spec.Containers) == 0 {
 		return
 	}
@@ -555,6 +598,46 @@ func c13SteerWholeCPU(pod *corev1.Pod) {
 		rr.Requests[corev1.ResourceCPU] = cur
 		if lim, ok := rr.Limits[corev1.ResourceCPU]; ok && c13Rat(lim).Cmp(c13Rat(cur)) < 0 {
 			rr.Limits[corev1.ResourceCPU] = cur.DeepCopy()
+		}
+	}
+}
+
+func c13Ceil(v *big.Rat) *big.Int {
+	q, rem := new(big.Int).DivMod(v.Num(), v.Denom(), new(big.Int))
+	if rem.Sign() != 0 {
+		q.Add(q, big.NewInt(1))
+	}
+	return q
+}
+
+// c13AddPodLevel gives the pod a pod-level request (spec.resources) that covers the containers, as
+// the API server's validation demands.
+func c13AddPodLevel(r *kit.Rand, pod *corev1.Pod) {
+	pod.Spec.Resources = &corev1.ResourceRequirements{Requests: corev1.ResourceList{}}
+	names := []corev1.ResourceName{corev1.ResourceCPU}
+	if r.Pct(40) {
+		names = append(names, corev1.ResourceMemory)
+	}
+	if r.Pct(10) {
+		names = names[1:]
+	}
+	for _, n := range names {
+		saved := pod.Spec.Overhead
+		pod.Spec.Overhead = nil
+		agg := c13PodRequest(pod, n)
+		pod.Spec.Overhead = saved
+		agg.Add(agg, c13Rat(c13Q(kit.Pick(r, []string{"0", "0", "500m", "1", "0.0005", "250m", "3"}))))
+		nano := new(big.Rat).Mul(agg, new(big.Rat).SetInt64(1000000000))
+		if !nano.IsInt() {
+			continue
+		}
+		q := c13Q(nano.Num().String() + "n")
+		pod.Spec.Resources.Requests[n] = q
+		if r.Pct(40) {
+			if pod.Spec.Resources.Limits == nil {
+				pod.Spec.Resources.Limits = corev1.ResourceList{}
+			}
+			pod.Spec.Resources.Limits[n] = q.DeepCopy()
 		}
 	}
 }
@@ -668,7 +751,7 @@ func TestVerifC13Validating(t *testing.T) {
 	ctx := context.Background()
 
 	kit.Run(t, kit.Config{Property: "C13", Unit: "validating", Quick: 6000, Thorough: 600000,
-		Rule: "one pod per case: QoS label in {absent, LSE, LSR, LS, BE, SYSTEM, junk}, spec.priority nil / at every class edge -1,0,+1 / class and gap centres / extremes, priority-class label (known or junk) overriding the number in 25%, 0-3 containers and 0-2 init containers (sidecars) with cpu/memory/batch/mid quantities from a boundary pool (1m, 0.0005, 500u, 1.5, 1e3, 1Gi, 1G, ...), overhead; API-server defaulting applied; 45% of the cases are updates whose old object differs in a QoS / priority-class / sub-priority / unrelated label or (tagged out-of-domain) in spec.priority; the feature gates ColocationProfileSkipValidatingPriority (40% of the updates, 15% of the creates) and ValidatePodDeviceResource (10%) are switched on per case and restored; 65% of LSR/LSE pods are steered to a whole CPU sum built from fractions. distinct = (operation, update kind, QoS, priority class, pod-CPU shape, batch requested, verdict, gate setting); non-trivial = priority at a class edge +-1, LSR/LSE pod with fractional or sub-milli container CPU, batch resource with non-BE QoS, or an update touching a QoS / priority-class label",
+		Rule: "one pod per case: QoS label in {absent, LSE, LSR, LS, BE, SYSTEM, junk}, spec.priority nil / at every class edge -1,0,+1 / class and gap centres / extremes, priority-class label (known or junk) overriding the number in 25%, 0-3 containers and 0-2 init containers (sidecars) with cpu/memory/batch/mid quantities from a boundary pool (1m, 0.0005, 500u, 1.5, 1e3, 1Gi, 1G, ...), overhead, other resource names (ephemeral-storage, hugepages, an extended resource), pod-level spec.resources in 5%; rarely 4-6 or 12 containers and 3-5 init containers, CPU up to 9e15, memory up to 1e19; API-server defaulting applied; 45% of the cases are updates whose old object differs in a QoS / priority-class / sub-priority / unrelated label or (tagged out-of-domain) in spec.priority; the feature gates ColocationProfileSkipValidatingPriority (40% of the updates, 15% of the creates) and ValidatePodDeviceResource (10%) are switched on per case and restored; 65% of LSR/LSE pods are steered to a whole CPU sum built from fractions. distinct = (operation, update kind, QoS, priority class, pod-CPU shape, batch requested, verdict, gate setting); non-trivial = priority at a class edge +-1, LSR/LSE pod with fractional or sub-milli container CPU, batch resource with non-BE QoS, or an update touching a QoS / priority-class label",
 	}, func(c *kit.Case) {
 		r := c.R
 		if !c13GatesRecorded {
@@ -684,6 +767,10 @@ func TestVerifC13Validating(t *testing.T) {
 		}
 		newPod, info := c13GenPod(r)
 		c13Default(newPod)
+		if r.Pct(5) {
+			c13AddPodLevel(r, newPod)
+			c.Count("v_pods_with_pod_level_resources", 1)
+		}
 		qos := c13QoS(newPod)
 		if (qos == "LSR" || qos == "LSE") && r.Pct(65) {
 			c13SteerWholeCPU(newPod)
